@@ -218,6 +218,17 @@ ROUND11 = {
     "C20": " A fresh connection's keyspace setup succeeds only on an answered USE.",
 }
 
+# clauses added by the twelfth (half) seed round
+ROUND12 = {
+    "C01": " The derived by-name UDT serializer pads skipped fields exactly once.",
+    "C05": " The policy's failover switch is the builder's, unconditioned.",
+    "C08": " VectorIterator::nth subtracts from `remaining` only under `n < remaining`.",
+    "C10": " The pool's shard fallback can reach every shard.",
+    "C14": " Metadata announced at re-preparation is adopted unless it would replace columns by none.",
+    "C16": " default_when_null covers an explicit NULL as well as an absent field (by-name UDT deserializer).",
+    "C17": " The empty value is refused for types that do not have it.",
+}
+
 NOT_APPLICABLE = {
 }
 
@@ -236,7 +247,7 @@ def main():
                 "evidence_file": "/verif/evidence/%s.json" % pid,
                 "replay_cmd_template": "./check explain {path}",
                 "engine": "scyllalint",
-                "level_claimed": {"category": "other", "text": text + ROUND4.get(pid, "") + ROUND5.get(pid, "") + ROUND6.get(pid, "") + ROUND7.get(pid, "") + ROUND8.get(pid, "") + ROUND9.get(pid, "") + ROUND10.get(pid, "") + ROUND11.get(pid, ""), "design_ref": ref},
+                "level_claimed": {"category": "other", "text": text + ROUND4.get(pid, "") + ROUND5.get(pid, "") + ROUND6.get(pid, "") + ROUND7.get(pid, "") + ROUND8.get(pid, "") + ROUND9.get(pid, "") + ROUND10.get(pid, "") + ROUND11.get(pid, "") + ROUND12.get(pid, ""), "design_ref": ref},
                 "level_note": note,
                 "technique": tech,
             })
